@@ -15,7 +15,7 @@ from . import c14
 
 RULE = ('pairs (A, B) of build-validate-serialise workloads (element + oracle-valid attributes + value + simple '
         'children) drawn from the oracle\'s type graph: same complex type / same element class / types sharing an '
-        'attribute group / unrelated control, plus a fixed panel of pairs (and, derived from the oracle, one pair per enumerated simple type that restricts another enumerated type: A offers the derived type a literal only the base allows, B offers it to the base type; and one pair per referenced attribute (xml:lang) that is required in one type and optional in another); for each pair EVERY single-pre-emption '
+        'attribute group / unrelated control, plus a fixed panel of pairs (and, derived from the oracle, one pair per enumerated simple type that restricts another enumerated type: A offers the derived type a literal only the base allows, B offers it to the base type; and one pair per referenced attribute (xml:lang) that is required in one type and optional in another; and one pair of complete scores that are also written to two paths of one directory and read back); for each pair EVERY single-pre-emption '
         'schedule is executed: thread A is stopped by a sys.settrace line hook at its k-th executed line inside the '
         'musicxml package (k = 1..N, N measured, ~2-4k), thread B runs to completion in the gap, A resumes.  Each '
         'schedule runs in a child forked from a fresh interpreter that has only imported the library, so the lazily '
@@ -103,6 +103,15 @@ def referenced_attribute_pairs():
 
 PANEL += derived_enumeration_pairs()
 PANEL += referenced_attribute_pairs()
+# two threads write their own scores to two paths in the same directory
+def _score(version, title, path):
+    return {'element': 'score-partwise', 'value': None, 'attrs': {'version': version}, 'write': path,
+            'children': [['movement-title', title],
+                         ['part-list', None, {}, [['score-part', None, {'id': 'P1'}, [['part-name', 'x']]]]],
+                         ['part', None, {'id': 'P1'}, [['measure', None, {'number': '1'}]]]]}
+
+
+PANEL.append((_score('4.0', 'first', 'a.xml'), _score('3.1', 'second', 'b.xml')))
 
 
 def run_pair(wa, wb, ks=None, max_k=None, offset=0, slice_=None, of=None):
@@ -185,7 +194,10 @@ def run_shard(ctx, shard, acc):
 
     def explore_pair(wa, wb, rel, slice_=None, of=None):
         # quick tier: the fixed panel is explored exhaustively up to 3200 lines per pair (three of the four pairs completely), drawn pairs are thinned to 400 schedules; thorough: everything exhaustively
-        res = run_pair(wa, wb, max_k=(400 if rel != 'panel' else 3200 // (of or 1)) if ctx.quick else None, offset=ctx.seed,
+        # (the score pair that also writes its files is thinned like a drawn pair; its last 80 lines - the file
+        # I/O - are always explored completely)
+        res = run_pair(wa, wb, max_k=(400 if rel != 'panel' or wa.get('write') else 3200 // (of or 1)) if ctx.quick else None,
+                       offset=ctx.seed,
                        slice_=slice_, of=of if (of or 1) > 1 else None)
         acc.evaluations += res['ran'] - 1
         acc.case({'a': wa, 'b': wb, 'schedules': res['ran'], 'first_use_schedules': res['nontrivial']}, True,
